@@ -641,9 +641,158 @@ const char * kRule =
   "rows beyond m of the reused object left over or overwritten with NaN / huge / inf. Non-trivial: history contains a shrink "
   "(m_k < m_{k-1}) and p >= 2.";
 
+
+// ------------------------------------------------------------------------------------------------
+// sub "resolve": what the loaded problem IS decides the answer - not how it got there.
+// One solver; the problem is loaded once through getJ()/getY()/getW(); then 2..4 solves follow WITHOUT reloading
+// (weightedEstimate() weights J and Y in place, so the current content changes and is tracked), optionally a second,
+// not larger problem is written through the references obtained at the beginning (setDataSize() does not reallocate
+// then). After every solve the estimate must satisfy the normal equations of the *current* content (long double),
+// un-preconditioned through x0 = A^-1 (x - b).
+template<typename S>
+void resolveBody(vf::Ctx & c)
+{
+  typedef long double LD;
+  const int p = static_cast<int>(c.s.i("estimate_size", 1, 6));
+  const int m = static_cast<int>(c.s.len("data_size", p + 1, 120));
+  const double condJ = c.s.rlog("cond", 1.0, sizeof(S) == 4 ? 10.0 : 100.0);
+  const size_t wScale = c.s.pick("weight_scale", {3, 1, 1});            // ordinary / 1e-3 / tiny (1e-4 float, 1e-8 double)
+  const size_t pre = c.s.pick("preconditioner", {2, 1, 2});             // none / identity matrix + offset / diagonal + offset
+  const int nSolves = static_cast<int>(c.s.i("solves", 2, 4));
+  std::vector<int> path;
+  {
+    bool scaledDown = false;   // the content has been multiplied by small weights
+    for (int k = 0; k < nSolves; ++k) {
+      int pk = static_cast<int>(c.s.pick("path", {1, 1, 1}));   // SVD / Cholesky / weighted
+      // the SVD path discards singular values of J^T J below epsilon *absolutely* (documented domain: well-scaled J):
+      // once small weights have been applied in place it is outside its domain - use the Cholesky path there
+      if (pk == 0 && scaledDown) {pk = 1;}
+      if (pk == 2 && wScale != 0) {scaledDown = true;}
+      path.push_back(pk);
+    }
+  }
+  const bool second = c.s.flag("second_problem_through_held_references", 1, 3);
+  const uint64_t seed = c.s.seed("content");
+  bool weightedAfterUnweighted = false;
+  for (int k = 1; k < nSolves; ++k) {if (path[k] == 2 && path[k - 1] != 2) {weightedAfterUnweighted = true;}}
+  c.labelIf(weightedAfterUnweighted, "weighted-solve-after-unweighted-on-the-same-data");
+  c.labelIf(pre == 1, "identity-matrix-with-offset");
+  c.labelIf(wScale == 2, "tiny-weights");
+  c.labelIf(second, "second-problem-written-through-held-references");
+  c.nontrivial(weightedAfterUnweighted || second || pre == 1);
+  c.commit();
+
+  vf::Rng rng(seed);
+  const double eps = vf::epsOf<S>();
+  auto makeProblem = [&](int rows, std::vector<LD> & J, std::vector<LD> & Y) {
+      // J = U diag(s) V^T with the prescribed condition number, entries rounded to S
+      std::vector<double> U, V;
+      orthonormalColumns(U, rows, p, rng);
+      orthonormalColumns(V, p, p, rng);
+      J.assign(static_cast<size_t>(rows) * p, 0); Y.assign(rows, 0);
+      for (int r = 0; r < rows; ++r) {
+        for (int cc = 0; cc < p; ++cc) {
+          double a = 0;
+          for (int k = 0; k < p; ++k) {
+            double sv = (p == 1) ? 1.0 : std::pow(condJ, -static_cast<double>(k) / (p - 1));
+            a += U[static_cast<size_t>(k) * rows + r] * sv * V[static_cast<size_t>(k) * p + cc];
+          }
+          J[static_cast<size_t>(r) * p + cc] = static_cast<S>(a);
+        }
+        Y[r] = static_cast<S>(rng.gauss());
+      }
+    };
+  std::vector<LD> J, Y, W(m);
+  makeProblem(m, J, Y);
+  const double ws = wScale == 0 ? 1.0 : (wScale == 1 ? 1e-3 : (sizeof(S) == 4 ? 1e-4 : 1e-8));
+  for (int r = 0; r < m; ++r) {W[r] = static_cast<S>(ws * rng.uniform(0.5, 2.0));}
+  std::vector<LD> A(p, 1), b(p, 0);
+  if (pre != 0) {
+    for (int k = 0; k < p; ++k) {
+      A[k] = (pre == 1) ? 1.0L : static_cast<LD>(static_cast<S>(std::pow(10.0, rng.uniform(-1, 1))));
+      b[k] = static_cast<S>(rng.uniform(-3, 3));
+    }
+  }
+
+  Solver<S> ls(static_cast<size_t>(p));
+  ls.setDataSize(static_cast<size_t>(m));
+  auto & Jl = ls.getJ();
+  auto & Yl = ls.getY();
+  auto & Wl = ls.getW();
+  int rows = m;
+  auto load = [&]() {
+      for (int r = 0; r < rows; ++r) {
+        for (int k = 0; k < p; ++k) {Jl(r, k) = static_cast<S>(J[static_cast<size_t>(r) * p + k]);}
+        Yl(r) = static_cast<S>(Y[r]);
+        Wl(r) = static_cast<S>(W[r]);
+      }
+    };
+  load();
+  if (pre != 0) {
+    typename Solver<S>::Matrix Am = Solver<S>::Matrix::Zero(p, p);
+    typename Solver<S>::Vector bv(p);
+    for (int k = 0; k < p; ++k) {Am(k, k) = static_cast<S>(A[k]); bv(k) = static_cast<S>(b[k]);}
+    ls.setPreconditionner(Am, bv);
+  }
+  auto solveAndCheck = [&](int pathKind, const std::string & who) {
+      if (pathKind == 2) {
+        // the weighted path multiplies the stored rows by the weights: afterwards that IS the content
+        for (int r = 0; r < rows; ++r) {
+          LD w = W[r];
+          for (int k = 0; k < p; ++k) {J[static_cast<size_t>(r) * p + k] = static_cast<S>(static_cast<S>(J[static_cast<size_t>(r) * p + k]) * static_cast<S>(w));}
+          Y[r] = static_cast<S>(static_cast<S>(Y[r]) * static_cast<S>(w));
+        }
+      }
+      typename Solver<S>::Vector x = pathKind == 0 ? ls.estimateUsingSVD() : (pathKind == 1 ? ls.estimateUsingCholeskyDecomposition() : ls.weightedEstimate());
+      VF_CHECK(c, x.size() == p && x.allFinite(), "%s: estimate not finite", who.c_str());
+      // normal equations of the current content
+      std::vector<LD> x0(p), g(p, 0);
+      for (int k = 0; k < p; ++k) {x0[k] = (static_cast<LD>(x(k)) - b[k]) / A[k];}
+      LD nJ = 0, nY = 0, nx = 0;
+      for (int r = 0; r < rows; ++r) {
+        LD e = -Y[r];
+        for (int k = 0; k < p; ++k) {e += J[static_cast<size_t>(r) * p + k] * x0[k]; nJ += J[static_cast<size_t>(r) * p + k] * J[static_cast<size_t>(r) * p + k];}
+        nY += Y[r] * Y[r];
+        for (int k = 0; k < p; ++k) {g[k] += J[static_cast<size_t>(r) * p + k] * e;}
+      }
+      LD ng = 0;
+      for (int k = 0; k < p; ++k) {ng += g[k] * g[k]; nx += x0[k] * x0[k];}
+      ng = sqrtl(ng); nJ = sqrtl(nJ); nY = sqrtl(nY); nx = sqrtl(nx);
+      LD bmag = 0, amax = 0;
+      for (int k = 0; k < p; ++k) {bmag += b[k] * b[k]; amax = std::max(amax, 1 / A[k]);}
+      // rounding: solving with cond(J)^2, forming J^T J / J^T Y with m terms, un-preconditioning
+      LD tol = 64 * eps * (static_cast<LD>(condJ) * condJ * p * nJ * nY + (rows + p) * nJ * nJ * (nx + amax * sqrtl(bmag)) + rows * nJ * nY);
+      c.maxStat(sizeof(S) == 4 ? "resolve: normal-equation residual / tolerance (float)" : "resolve: normal-equation residual / tolerance (double)", static_cast<double>(ng / tol));
+      VF_CHECK(c, ng <= tol, "%s: the estimate does not solve the problem that is currently loaded: |J^T(Jx-Y)| = %.3Lg > %.3Lg (p=%d rows=%d cond=%.3g; |J^T Y|-scale %.3Lg)",
+        who.c_str(), ng, tol, p, rows, condJ, nJ * nY);
+    };
+  static const char * pn[] = {"SVD", "Cholesky", "weighted"};
+  for (int k = 0; k < nSolves; ++k) {solveAndCheck(path[k], vf::fmt("solve #%d (%s) without reloading", k, pn[path[k]]));}
+  if (second) {
+    // a second, not larger problem written through the references obtained before the first solve
+    rows = std::max(p + 1, m - static_cast<int>(rng.below(static_cast<uint64_t>(m - p))));
+    makeProblem(rows, J, Y);
+    for (int r = 0; r < rows; ++r) {W[r] = static_cast<S>(ws * rng.uniform(0.5, 2.0));}
+    bool realloc = ls.setDataSize(static_cast<size_t>(rows));
+    c.harnessCheck(!realloc, "setDataSize(smaller) reallocated");
+    load();
+    for (int k = 0; k < nSolves; ++k) {solveAndCheck(path[k], vf::fmt("second problem, solve #%d (%s)", k, pn[path[k]]));}   // fresh content: same path sequence is in-domain again
+  }
+}
+
+const char * kResolveRule =
+  "estimate size 1..6, data size up to 120, J = U diag(s) V^T with cond <= 100 (10 for float), weights 0.5..2 times 1 / 1e-3 / 1e-8 "
+  "(1e-4 float), preconditioner none / identity matrix + offset / diagonal + offset; the problem is loaded once, then 2..4 solves "
+  "(SVD / Cholesky / weighted) run without reloading, optionally followed by a second, not larger problem written through the "
+  "references obtained at the start; after every solve the estimate must satisfy the normal equations of the content currently "
+  "in the solver. Non-trivial: a weighted solve after an unweighted one on the same data, a second problem through held references, "
+  "or an identity-matrix preconditioner with a non-zero offset.";
+
 const std::vector<vf::Sub> kSubs = {
   {"history_double", history<double>, kRule},
   {"history_float", history<float>, kRule},
+  {"resolve_double", resolveBody<double>, kResolveRule},
+  {"resolve_float", resolveBody<float>, kResolveRule},
 };
 
 }  // namespace
